@@ -30,6 +30,11 @@ class Adapter:
         try:
             lg = LanguageGraph(materialise.spec_of(L))
         except Exception as e:
+            if case.get('name') == 'generated':
+                # a RANDOM language (LangGen) that the toolbox refuses to load is inconclusive, not a divergence: the specification types intersection / difference by the common super asset (as malc does), the toolbox by the left operand, so a type filter such as (fe - fa)[T] can be well-formed for one and not for the other (DESIGN.md section 7); library languages must load
+                res['inconclusive'] = True
+                res['features'].append('generated_language_refused')
+                return res
             div('language_graph_raises', {'error': repr(e)[:400]})      # a well-formed library language must load
             return res
         names = [a.name for a in lg.assets]
